@@ -486,7 +486,8 @@ def run_reads(ctx):
                                     variant = 'oversize'
                             fmap, size = list(f._map), f._get_size()
                             ops = rand_ops(rng, cs, size)
-                            res = py_script(f, ops)
+                            with lib.time_limit(20, 'a read sequence on one open file'):
+                                res = py_script(f, ops)
                             f.close()
                         except Exception as e:
                             ctx.case((v, path, 'exception'), True, 'reads:exception')
